@@ -235,10 +235,19 @@ def _run_binary(case):
             else:
                 objs[p].children = [lo, ro]
     idx = {id(o): t for t, o in enumerate(objs)}
+    ext = case.get("ext", "none")
     out = []
     for t in order:
         o = objs[t]
-        out.append([[None if c is None else idx[id(c)] for c in o.children], bool(o.is_leaf)])
+        x = None
+        if ext == "diameter":        # BaseNode.diameter, inherited
+            try:
+                x = [0, int(o.diameter)]
+            except Exception as e:
+                x = [exn_code(e), 0]
+        elif ext == "siblings":      # BaseNode.siblings, inherited
+            x = [None if c is None else idx[id(c)] for c in o.siblings]
+        out.append([[None if c is None else idx[id(c)] for c in o.children], bool(o.is_leaf), x])
     return {"bin": out, "order": order}
 
 
@@ -270,9 +279,22 @@ def emit(prop, case, obs):
     if case["kind"] == "binary":
         slots = case["slots"]
         assert len(obs["bin"]) == len(obs["order"])
-        for t, (sl, _) in zip(obs["order"], obs["bin"]):
-            assert list(sl) == list(slots[t]), "BinaryNode.children does not show the links that were set"
-        return "DB " + clist(f"({clist(copt(c, str) for c in sl)}, {cbool(b)})" for sl, b in obs["bin"])
+
+        def bt(x):
+            l, r = slots[x]
+            return f"BT {x} {copt(l, lambda y: '(' + bt(y) + ')')} {copt(r, lambda y: '(' + bt(y) + ')')}"
+
+        ext = case.get("ext", "none")
+        items = []
+        for t, (sl, leaf, x) in zip(obs["order"], obs["bin"]):
+            if ext == "diameter":
+                xs = f"(XDiam {int(x[0])} {int(x[1])})"
+            elif ext == "siblings":
+                xs = f"(XSibs {clist(copt(c, str) for c in x)})"
+            else:
+                xs = "XNone"
+            items.append(f"BO {int(t)} {clist(copt(c, str) for c in sl)} {cbool(leaf)} {xs}")
+        return f"DB ({bt(case['root'])}) {clist(items)}"
     kids = case["kids"]
     n = len(kids)
     t = _ctree(case, kids, case["root"])
@@ -499,8 +521,20 @@ def make_binary_case(rng, n):
         slots[p][s] = t
         slots.append([None, None])
         free += [(t, 0), (t, 1)]
-    return {"kind": "binary", "slots": slots, "root": 0,
+    return {"kind": "binary", "slots": slots, "root": 0, "ext": rng.choice(binary_ext_modes()),
             "build": [rng.choice(["children", "leftright", "parent"]) for _ in range(rng.randint(1, 3))]}
+
+
+def binary_ext_modes():
+    """which inherited queries are also asked of BinaryNode trees (VERIF_C12_BINARY_EXT=0 switches them off,
+    =diameter / =siblings selects one)"""
+    import os
+    v = os.environ.get("VERIF_C12_BINARY_EXT", "1")
+    if v in ("0", "", "none"):
+        return ["none"]
+    if v in ("diameter", "siblings"):
+        return ["none", v]
+    return ["none", "diameter", "siblings"]
 
 
 def corpus(prop):
@@ -517,9 +551,17 @@ def corpus(prop):
     out.append(("deep-diameter", make_case(rng, [[[[[]]], [[[]]]], []], cls="Node", tagging="reverse")))
     out.append(("single", make_case(rng, [], cls="Node", tagging="preorder")))
     out.append(("single", make_case(rng, [], cls="BaseNode", tagging="preorder")))
-    out.append(("binary", {"kind": "binary", "slots": [[None, None]], "root": 0, "build": ["children"]}))
-    out.append(("binary", {"kind": "binary", "slots": [[1, None], [None, 2], [None, None]], "root": 0, "build": ["children"]}))
-    out.append(("binary", {"kind": "binary", "slots": [[None, 1], [2, 3], [None, None], [None, None]], "root": 0, "build": ["leftright"]}))
+    out.append(("binary", {"kind": "binary", "slots": [[None, None]], "root": 0, "build": ["children"], "ext": "none"}))
+    out.append(("binary", {"kind": "binary", "slots": [[1, None], [None, 2], [None, None]], "root": 0, "build": ["children"], "ext": "none"}))
+    out.append(("binary", {"kind": "binary", "slots": [[None, 1], [2, 3], [None, None], [None, None]], "root": 0, "build": ["leftright"], "ext": "none"}))
+    modes = binary_ext_modes()
+    # witnesses of the two BinaryNode behaviours reported for C12 (see matches_finding)
+    if "diameter" in modes:
+        out.append(("binary-diameter-full", {"kind": "binary", "slots": [[1, 2], [None, None], [None, None]], "root": 0, "build": ["children"], "ext": "diameter"}))
+        out.append(("binary-diameter-witness", {"kind": "binary", "slots": [[1, None], [None, None]], "root": 0, "build": ["children"], "ext": "diameter"}))
+    if "siblings" in modes:
+        out.append(("binary-siblings-full", {"kind": "binary", "slots": [[1, 2], [None, None], [None, None]], "root": 0, "build": ["children"], "ext": "siblings"}))
+        out.append(("binary-siblings-witness", {"kind": "binary", "slots": [[1, None], [None, None]], "root": 0, "build": ["children"], "ext": "siblings"}))
     return out
 
 
@@ -617,7 +659,8 @@ def nontrivial(prop, case, obs):
 
 def sample(prop, case, obs):
     if case["kind"] == "binary":
-        return {"kind": "binary", "slots": case["slots"], "is_leaf": [b for _, b in obs["bin"]]}
+        return {"kind": "binary", "slots": case["slots"], "ext": case.get("ext", "none"),
+                "is_leaf": [b[1] for b in obs["bin"]], "ext_values": [b[2] for b in obs["bin"]]}
     return {"class": case["cls"], "kids": case["kids"], "root": case["root"],
             "first_node": obs["nodes"][0] if obs.get("nodes") else None,
             "gotos": list(zip(case["gotos"][:3], obs["gotos"][:3]))}
@@ -635,7 +678,29 @@ def rule(prop):
 
 def explain(prop, case, obs, flags):
     from ._base import explain as base
-    return base(prop, case, obs, flags)
+    msg = base(prop, case, obs, flags)
+    if case.get("kind") == "binary" and case.get("ext", "none") != "none" and isinstance(obs, dict) and "bin" in obs:
+        msg += ("; BinaryNode tree, inherited BaseNode." + case["ext"] + " per node (pre-order): "
+                + repr([b[2] for b in obs["bin"]]))
+    return msg
+
+
+def matches_finding(prop, entry, case, obs, flags):
+    """K4-C12: BaseNode.diameter on a BinaryNode tree with a one-child node raises AttributeError
+    (None.is_leaf); K5-C12: BaseNode.siblings of a BinaryNode whose sibling slot is empty is (None,).
+    Matched only when the implementation did exactly what the faithful model does (flags == PROPFAIL)."""
+    if prop != "C12" or case.get("kind") != "binary" or flags != 2:
+        return False
+    if not isinstance(obs, dict) or "bin" not in obs:
+        return False
+    eid = str(entry.get("id", ""))
+    ext = case.get("ext", "none")
+    one_child = any((l is None) != (r is None) for l, r in case["slots"])
+    if eid.startswith("K4-C12"):
+        return ext == "diameter" and one_child and any(b[2][0] == 3 for b in obs["bin"])
+    if eid.startswith("K5-C12"):
+        return ext == "siblings" and one_child and any(None in b[2] for b in obs["bin"])
+    return False
 
 
 def trusted_base(prop):
